@@ -1304,7 +1304,7 @@ struct Exec
             return false;
         }
         auto held = w.heldFlags();
-        if (live.analyser != nullptr || live.am != nullptr || live.importer != nullptr || live.generator != nullptr || live.validator != nullptr || live.annotator != nullptr) {
+        if (live.ev != nullptr || live.analyser != nullptr || live.am != nullptr || live.importer != nullptr || live.generator != nullptr || live.validator != nullptr || live.annotator != nullptr) {
             // Long-lived services keep strong references to what they were given (the importer's library its models, an
             // analyser model the analysed model, its variables and components, an external variable its variable, every
             // logger the items of its issues): with such a service around, an entity that is still alive is not required
@@ -1789,7 +1789,7 @@ struct Exec
             return false;
         }
         if (!failure.empty()) {
-            ctx.violate("C09", "bad-argument-accepted", p.tags, p.op + ": " + failure);
+            ctx.violate("C09", se.recvKind >= 0 ? "service-answer-wrong-after-history" : "bad-argument-accepted", p.tags, p.op + ": " + failure);
             return false;
         }
         return true;
